@@ -206,6 +206,12 @@ def run_property(prop, tier, jobs, kinds, text, bounds, outside=(), extra_assump
     for r, j in zip(results, jobs):
         kw = j[2]
         for fobj in r["failed"]:
+            if r["name"].startswith("TransOffset"):
+                form = kw["form"]
+                w = tz_replay.check_transoffset(fobj["model"], form)
+                if w: rep.violation("TransOffset:%s:%s" % (form, json.dumps(fobj["model"], sort_keys=True)[:200]), w + "  [%s]" % fobj["desc"], {"transoffset": fobj["model"], "form": form})
+                else: rep.spurious.append({"job": r["name"], "obligation": fobj["desc"], "model": fobj["model"]})
+                continue
             z = model_to_zone(fobj["model"], kw["N"], kw["T"])
             kind = None
             for pfx, k in kinds.items():
@@ -229,12 +235,13 @@ def run_property(prop, tier, jobs, kinds, text, bounds, outside=(), extra_assump
     rep.outside = ["zones extended by a POSIX footer (extended_: 400-year shift, YearShift/TimeLocal) - year-based code is outside the ordinal abstraction",
                    "tables larger than the stated N x T"] + list(outside)
     rep.assumptions = ["WF(table): what TimeZoneInfo::Load establishes (sorted times, front < 0 <= back, offsets within +-24h, civil_sec/prev_civil_sec/civil_max/civil_min consistent)",
-                       "zic-shaped premise: |transition time| <= 2^61; C02's premise: consecutive offset changes are farther apart than the sum of their sizes",
+                       "zic-shaped premise: |transition time| <= 2^59; C02's premise: consecutive offset changes are farther apart than the sum of their sizes",
                        "civil_second default construction, +, - replaced by their ordinal contracts (proved on the real code by C04/C05); relational operators run from their IR",
                        "std::string::operator[] on abbreviations_ modelled as data()+i with a bounds obligation"] + list(extra_assumptions)
     return rep.finish(text)
 
 def replay_case(case):
+    if "transoffset" in case: return tz_replay.check_transoffset(case["transoffset"], case["form"])
     return tz_replay.check_case(case["zone"], case.get("kind") or "break") or \
            next((w for w in (tz_replay.check_case(case["zone"], k) for k in ("make", "roundtrip", "order", "next", "prev")) if w), None)
 
